@@ -329,12 +329,17 @@ func plans() map[string]*propertyPlan {
 	c17.thorough = append(c17.thorough, spec{family: "revisions", cases: 30000, cpuS: 7200, asKB: 8 << 20, wallS: 9000})
 	c17.evaluations = "sets,header_sets"
 	c17.minObserved["path_lookups_through_import"] = 1000
+	c12 := treePlan("ReadOnly, Namespace and InstantiatingModule of every node are compared with the reference; on sets of module headers with several revisions of one module, every node of every revision is attributed to the module of that name", 30000, 400000)
+	c12.quick = append(c12.quick, spec{family: "revisions", cases: 1500, cpuS: 900, asKB: 8 << 20, wallS: 1200})
+	c12.thorough = append(c12.thorough, spec{family: "revisions", cases: 30000, cpuS: 7200, asKB: 8 << 20, wallS: 9000})
+	c12.evaluations = "sets,header_sets"
+	c12.minObserved["instantiating_module_queries"] = 1000
 	return map[string]*propertyPlan{
 		"C04": late(treePlan("after a clean Process every tree is walked (Dir and rpc input/output): name/key, parent pointers, no Entry object reached twice, kind vs child map/type/list attributes, choice children are cases, no unapplied augment, no node with recorded errors; and the set of errors expected by the reference must not be silently absent", 30000, 400000), 3900, 52000),
 		"C06": c06,
 		"C07": late(treePlan("augmented trees are compared with the reference graft (children, namespace and instantiating module of grafted nodes) and augments the reference cannot apply must be reported", 30000, 400000), 2100, 28000),
 		"C09": treePlan("the resolved type of every leaf (base kind, units, default, accumulated patterns) is compared with the reference binder", 30000, 400000),
-		"C12": treePlan("ReadOnly, Namespace and InstantiatingModule of every node are compared with the reference", 30000, 400000),
+		"C12": c12,
 		"C17": c17,
 		"C02": {
 			level:       "exploration",
